@@ -74,6 +74,16 @@ def cc_skeletons():
         ("(x + c0)*(y + c1)", lambda c: P(S(x, c[0]), S(y, c[1])), lambda t: t is not None and not ({"x"} <= t and {"y"} <= t)),
         ("x*(c0*x + 1)", lambda c: P(x, S(P(c[0], x), 1)), lambda t: t is not None and "x" not in t),
         ("x/(y + c0)", lambda c: Q(x, S(y, c[0])), lambda t: t is not None and "y" not in t),
+        # powers whose base/exponent MIX a target with a non-target term (round f: the collector's map_power must refuse
+        # a base or exponent dict that has a target entry next to the constant entry)
+        ("(x + c0)**2", lambda c: p.Power(S(x, c[0]), 2), lambda t: t is not None and "x" not in t),
+        ("c0**(x + c1)", lambda c: p.Power(c[0], S(x, c[1])), lambda t: t is not None and "x" not in t),
+        ("c0*(x + z)**2 + x", lambda c: S(P(c[0], p.Power(S(x, z), 2)), x),
+         lambda t: t is not None and "x" not in t and "z" not in t),
+        ("(c0*y + z)**(x + 1) + y", lambda c: S(p.Power(S(P(c[0], y), z), S(x, 1)), y),
+         lambda t: t is not None and not ({"x", "y", "z"} & t)),
+        ("(z + c0)**3 * c1 + x", lambda c: S(P(p.Power(S(z, c[0]), 3), c[1]), x),
+         lambda t: t is not None and "z" not in t),
     ]
 
 
